@@ -82,6 +82,24 @@ class Frame:
         self.self_cls = self_cls
         self.depth = depth
         self.exact = exact  # self_cls is the exact dynamic class (class attributes may be folded)
+        self.helper_depth = 0  # nesting of followed helper functions (see Evaluator.is_new_helper)
+        self.class_scope = None  # ClassInfo whose body the expression belongs to (class-level names are visible)
+        self.pending = []  # raise exits of callees inlined while evaluating the current statement's expressions
+
+
+_KNOWN = []
+
+
+def _known_functions():
+    """Qualified names of the functions that existed when the rules were confirmed (reference/known_functions.json, regenerated
+    by tools/make_known_functions.py); None when the file is absent.  Used only to choose between following a call and keeping it
+    opaque, never as a verdict."""
+    if not _KNOWN:
+        import json
+        from pathlib import Path
+        f = Path(__file__).resolve().parent.parent / "reference" / "known_functions.json"
+        _KNOWN.append(frozenset(json.loads(f.read_text())) if f.is_file() else None)
+    return _KNOWN[0]
 
 
 class Evaluator:
@@ -92,6 +110,7 @@ class Evaluator:
         self.budget = budget
         self.inline_filter = inline_filter  # callable(FuncInfo) -> bool
         self.calls_seen = 0
+        self.known = _known_functions()
         self._enum_cache = {}
         self._override_cache = {}
 
@@ -128,7 +147,7 @@ class Evaluator:
         a = self.repo.class_attr(ci, name)
         if a is None:
             raise AnalysisError(f"enum {ci.fq} has no member {name}")
-        return self.eval_expr(a[0], State(), Frame(None, a[1].module, None, 0))
+        return self._class_body_expr(a[0], a[1])
 
     # ------------------------------------------------------------------ expressions
     def eval_expr(self, e: ast.AST, st: State, fr: Frame) -> Term:
@@ -144,8 +163,16 @@ class Evaluator:
     def e_Name(self, e, st, fr):
         if e.id in st.env:
             return st.env[e.id]
+        if fr.class_scope is not None and e.id in fr.class_scope.attrs:
+            return self._class_body_expr(fr.class_scope.attrs[e.id], fr.class_scope)
         r = self.repo.resolve_name(fr.mod, e.id)
         return self._ref_to_term(r, e, fr) if r is not None else Sym("free:" + e.id)
+
+    def _class_body_expr(self, expr, ci):
+        """An expression of a class body: the names assigned in that body are in scope."""
+        f = Frame(None, ci.module, None, 0)
+        f.class_scope = ci
+        return self.eval_expr(expr, State(), f)
 
     def _ref_to_term(self, r, e, fr):
         k = r[0]
@@ -162,7 +189,7 @@ class Evaluator:
         if k == "const":
             return self.eval_expr(r[1], State(), Frame(None, r[2], None, 0))
         if k == "classattr":
-            return self.eval_expr(r[1], State(), Frame(None, r[2].module, None, 0))
+            return self._class_body_expr(r[1], r[2])
         return Sym("unresolved:" + ast.unparse(e))
 
     def e_List(self, e, st, fr):
@@ -408,10 +435,13 @@ class Evaluator:
                 if a is not None:
                     if self._stored_through_class_name(ci, attr):
                         return App("attr:" + attr, (base,), node)  # written at run time somewhere: state, not a constant
-                    return self.eval_expr(a[0], State(), Frame(None, a[1].module, None, 0))
+                    return self._class_body_expr(a[0], a[1])
                 if attr == "__name__":
                     return Const(ci.name)
                 return App("attr:" + attr, (base,), node)
+        if isinstance(base, App) and base.op == "phi" and not any((b, attr) in st.heap for b in base.args[1:]):
+            # reading an attribute of `a if c else b`
+            return phi(base.args[0], self.attribute(base.args[1], attr, st, fr, node), self.attribute(base.args[2], attr, st, fr, node), node)
         if isinstance(base, App) and base.op == "enum":
             if attr == "value":
                 return self.enum_value(base)
@@ -448,7 +478,7 @@ class Evaluator:
                                                              {a for c in self.repo.mro(ci) for a in c.attrs} and
                                                              not self._instance_assigned(ci, attr)):
                     return App("attr:" + attr, (base,), node)
-                return self.eval_expr(a[0], State(), Frame(None, a[1].module, None, 0))
+                return self._class_body_expr(a[0], a[1])
         return App("attr:" + attr, (base,), node)
 
     def _exact_instance(self, t, fr) -> bool:
@@ -944,8 +974,12 @@ class Evaluator:
         """Call a repository function: inline it when the budget allows, else keep an opaque call term."""
         callterm = App("call", [Ref("func", fi)] + ([selfarg] if selfarg is not None else []) + list(args)
                        + self.kwterms(kwargs) + ([App("starkw", (starkw,))] if starkw is not None else []), e)
-        self.record_call(callterm, st)
-        if fr.depth >= self.inline_depth or (self.inline_filter is not None and not self.inline_filter(fi)) \
+        # a function the rules have never seen (a helper introduced by a later change) is always followed, whatever the inlining
+        # depth asked for: the caller then shows the same terms and effects as with the helper's statements written in place
+        helper = self.is_new_helper(fi) and fr.helper_depth < 3 and not ctor and self.bind_params(fi, selfarg, args, kwargs, starkw, unbound=unbound) is not None
+        if not helper:
+            self.record_call(callterm, st)
+        if (not helper and (fr.depth >= self.inline_depth or (self.inline_filter is not None and not self.inline_filter(fi)))) \
                 or "abstractmethod" in fi.decorators:
             # the callee is not evaluated: forget what is known about the fields of its receiver
             if selfarg is not None:
@@ -961,10 +995,14 @@ class Evaluator:
             if self_cls is None or fi.cls not in self.repo.mro(self_cls):
                 self_cls = fi.cls
         sub = State(binding, st.heap, st.effects, st.conds)
-        nfr = Frame(fi, fi.module, self_cls, fr.depth + 1)
+        nfr = Frame(fi, fi.module, self_cls, fr.depth + (0 if helper else 1))
+        nfr.helper_depth = fr.helper_depth + (1 if helper else 0)
         fall, exits = self.exec_block(fi.node.body, sub, nfr)
         rets = [x for x in exits if x.kind == "return"]
         raises = [x for x in exits if x.kind == "raise"]
+        # an exception raised by the callee leaves the caller too (unless a handler of the caller catches it: s_Try filters)
+        for r in raises:
+            fr.pending.append(Exit("raise", r.value, list(r.conds), list(r.effects), r.node, dict(r.heap), dict(st.env)))
         outcomes = list(rets)
         if fall is not None:
             outcomes.append(Exit("return", Const(None), fall.conds, fall.effects, fi.node, fall.heap, fall.env))
@@ -1021,6 +1059,10 @@ class Evaluator:
             st.effects.append(App("eff:may_raise", [App("exc", (r.value if r.value is not None else Const(None),
                                                                   App("conds", r.conds[base_c:]))) for r in raises], e))
         return val if not ctor else Const(None)
+
+    def is_new_helper(self, fi: FuncInfo) -> bool:
+        return self.known is not None and fi.fq not in self.known and "abstractmethod" not in fi.decorators \
+            and not (fi.name.startswith("__") and fi.name.endswith("__"))
 
     def _split_guard(self, g):
         return g, App("not", (g,))
@@ -1123,13 +1165,19 @@ class Evaluator:
         m = getattr(self, "s_" + type(s).__name__, None)
         if m is None:
             raise AnalysisError(f"statement kind {type(s).__name__} not modelled (line {getattr(s, 'lineno', '?')})")
-        return m(s, st, fr)
+        cur, ex = m(s, st, fr)
+        if fr.pending:
+            ex = list(ex) + fr.pending
+            fr.pending = []
+        return cur, ex
 
     def s_Expr(self, s, st, fr):
         if isinstance(s.value, ast.Constant):
             return st, []
         v = self.eval_expr(s.value, st, fr)
         if isinstance(v, App) and v.op == "raises":
+            if fr.pending:
+                return None, []  # the callee's own raise exits are handed over by exec_stmt
             return None, [Exit("raise", v, list(st.conds), list(st.effects), s, dict(st.heap), dict(st.env))]
         return st, []
 
